@@ -12,7 +12,7 @@ for l in L:
         m = re.match(r"finding: property=(C\d+) key=(\S+) (.*)", l)
         if m:
             pr, k, d = m.groups()
-            if any(f"property={pr} " in f and (d[:50] in f or k in f) for f in fixed):
+            if any(f"property={pr} " in f and (d[:140] in f or ("key=" + k) in f or (" " + k + " ") in f) for f in fixed):
                 print("dropped stale finding", pr, k)
                 continue
     if l and l in seen:
